@@ -30,8 +30,10 @@ const GRACE: Duration = Duration::from_millis(500);
 /// a child that has not said READY by then is retried (the machine may be overloaded), then given up on
 const STARTUP: Duration = Duration::from_secs(60);
 
-/// The 14-symbol alphabet of DESIGN §3 C41, simplest first.
-const ALPHABET: [&str; 14] = ["a", "1", " ", "\n", "\t", "(", ")", "[", "]", "{", "\"", "#", ":", "é"];
+/// The 14-symbol alphabet of DESIGN §3 C41, simplest first, plus a no-break space: a multi-byte
+/// character that `trim_start`/`is_whitespace` treat as indentation (added after seeded change C41:
+/// an indentation computed with `trim_start` and used as a byte offset).
+const ALPHABET: [&str; 15] = ["a", "1", " ", "\n", "\t", "(", ")", "[", "]", "{", "\"", "#", ":", "é", "\u{a0}"];
 
 /// 40-token dictionary for substitutions (keywords, punctuation, brackets, indentation, comments,
 /// non-ASCII text, the preprocessor's own in-band markers, integer extremes, a loop header).
@@ -450,7 +452,7 @@ impl Gen {
             SpaceId::Short => {
                 let mut d = Vec::new();
                 self.short.decode(i, &mut d);
-                (d.iter().map(|k| ALPHABET[*k]).collect(), "string over the 14-symbol alphabet".into())
+                (d.iter().map(|k| ALPHABET[*k]).collect(), "string over the 15-symbol alphabet".into())
             }
             SpaceId::Nest => (self.nest[i as usize].clone(), "nesting / literal-edge family".into()),
             SpaceId::LoopToken(s) => self.input(&SpaceId::Token(*s), self.loop_token[*s][i as usize]),
